@@ -196,8 +196,17 @@ class Names:
             if rng.random() < p_unknown:
                 return W.pick(rng, [".*nosuchthing.*", "^" + m.replace(".", "\\.") + "xq$",
                                     "nosuch\\..*", ".*\\.zzzz$"])
-            return W.pick(rng, ["^" + m.replace(".", "\\.") + "$", ".*" + last + ".*",
-                                ".*\\." + last + "$", "^" + m.replace(".", "\\.") + "(\\..*)?$"])
+            one = W.pick(rng, ["^" + m.replace(".", "\\.") + "$", ".*" + last + ".*",
+                               ".*\\." + last + "$", "^" + m.replace(".", "\\.") + "(\\..*)?$"])
+            if batch_ok and rng.random() < 0.2:
+                # the list form shown in the documentation; the second pattern may match nothing
+                m2 = self.known()
+                two = (W.pick(rng, [".*nosuchthing.*", "nosuch\\..*"]) if rng.random() < 0.5
+                       else "^" + m2.replace(".", "\\.") + "$")
+                pair = [one, two]
+                rng.shuffle(pair)
+                return pair if pair[0] != pair[1] else one
+            return one
         # have_name_containing (deprecated partial-name syntax)
         m = self.known()
         last = m.rsplit(".", 1)[-1]
